@@ -1398,3 +1398,276 @@ Proof.
       - destruct (gap s); reflexivity. }
     rewrite E. reflexivity.
 Qed.
+
+(* what the adjacency predicate means *)
+Lemma adj_from_pair : forall pre p a b post,
+  adj_from p (pre ++ a :: b :: post) = true -> adj_pair a b = true.
+Proof.
+  induction pre as [|e t IH]; intros p a b post H; cbn [app adj_from] in H.
+  - apply andb_prop in H. destruct H as [_ H]. apply andb_prop in H. tauto.
+  - apply andb_prop in H. destruct H as [_ H]. eauto.
+Qed.
+
+Lemma adj_from_last : forall pre p a, adj_from p (pre ++ [a]) = true -> may_end a = true.
+Proof.
+  induction pre as [|e t IH]; intros p a H; cbn [app adj_from] in H.
+  - apply andb_prop in H. tauto.
+  - apply andb_prop in H. destruct H as [_ H]. eauto.
+Qed.
+
+Theorem adj_sound_err : forall l, seg_adj_ok l = true ->
+  forall pre k post, l = pre ++ PollReady k RErr :: post -> exists post', post = Create k :: post'.
+Proof.
+  intros l H pre k post ->. rewrite seg_adj_from in H. destruct post as [|b post'].
+  - apply adj_from_last in H. discriminate.
+  - apply adj_from_pair in H. unfold adj_pair in H. apply andb_prop in H. destruct H as [H _].
+    destruct b; try discriminate. apply Nat.eqb_eq in H. subst. eauto.
+Qed.
+
+Theorem adj_sound_create : forall l, seg_adj_ok l = true ->
+  forall pre k post, l = pre ++ Create k :: post ->
+  (exists pre', pre = pre' ++ [PollReady k RErr]) /\ (exists a post', post = PollCreate k a :: post').
+Proof.
+  intros l H pre k post ->. rewrite seg_adj_from in H. split.
+  - destruct (rev pre) as [|a rp] eqn:Er.
+    + apply (f_equal (@rev obs)) in Er. rewrite rev_involutive in Er. cbn in Er. subst pre.
+      cbn in H. discriminate.
+    + apply (f_equal (@rev obs)) in Er. rewrite rev_involutive in Er. cbn in Er. subst pre.
+      rewrite <- app_assoc in H. cbn [app] in H. apply adj_from_pair in H.
+      unfold adj_pair in H. apply andb_prop in H. destruct H as [_ H].
+      destruct a as [f r| | | | | | | | | ]; try discriminate. destruct r; try discriminate.
+      apply Nat.eqb_eq in H. subst. eauto.
+  - destruct post as [|b post'].
+    + apply adj_from_last in H. discriminate.
+    + apply adj_from_pair in H. unfold adj_pair in H. apply andb_prop in H. destruct H as [H _].
+      destruct b; try discriminate. apply Nat.eqb_eq in H. subst. eauto.
+Qed.
+
+Theorem adj_sound_fail : forall l, seg_adj_ok l = true ->
+  forall pre k post, l = pre ++ PollCreate k CErr :: post -> exists post', post = Panic PRestart :: post'.
+Proof.
+  intros l H pre k post ->. rewrite seg_adj_from in H. destruct post as [|b post'].
+  - apply adj_from_last in H. discriminate.
+  - apply adj_from_pair in H. unfold adj_pair in H. apply andb_prop in H. destruct H as [H _].
+    destruct b; try discriminate. destruct p; try discriminate. eauto.
+Qed.
+
+Theorem adj_sound_panic : forall l, seg_adj_ok l = true ->
+  forall pre post, l = pre ++ Panic PRestart :: post -> exists pre' k, pre = pre' ++ [PollCreate k CErr].
+Proof.
+  intros l H pre post ->. rewrite seg_adj_from in H.
+  destruct (rev pre) as [|a rp] eqn:Er.
+  - apply (f_equal (@rev obs)) in Er. rewrite rev_involutive in Er. cbn in Er. subst pre.
+    cbn in H. discriminate.
+  - apply (f_equal (@rev obs)) in Er. rewrite rev_involutive in Er. cbn in Er. subst pre.
+    rewrite <- app_assoc in H. cbn [app] in H. apply adj_from_pair in H.
+    unfold adj_pair in H. apply andb_prop in H. destruct H as [_ H].
+    destruct a as [f r| | |f r| | | | | | ]; try discriminate. destruct r; try discriminate. eauto.
+Qed.
+
+(* ======================================================================================== *)
+(* C07: what one poll achieves (queued connections are served once readiness returns)        *)
+(* ======================================================================================== *)
+
+Definition tokens_ok (c : cfg) (s : st) : Prop :=
+  Forall (fun x => fst x < length (c_svcs c)) (cq s).
+
+Definition poll_outcome (s2 : st) (o : list obs) : Prop :=
+  (ws s2 = WAvailable /\ cq s2 = [])
+  \/ (ws s2 = WUnavailable /\ exists k, In (PollReady k RPend) o)
+  \/ (exists k, ws s2 = WRestarting k /\ In (PollCreate k CPend) o)
+  \/ (ws s2 = WPanicked /\ In (Panic PRestart) o /\ exists k, In (PollCreate k CErr) o).
+
+Lemma poll_outcome_app : forall s2 o1 o2, poll_outcome s2 o2 -> poll_outcome s2 (o1 ++ o2).
+Proof.
+  intros s2 o1 o2 [H|[[H [k Hk]]|[[k [H Hk]]|[H [Hp [k Hk]]]]]]; unfold poll_outcome.
+  - auto.
+  - right; left. split; auto. exists k. apply in_or_app. auto.
+  - right; right; left. exists k. split; auto. apply in_or_app. auto.
+  - right; right; right. split; auto. split; [apply in_or_app; auto|].
+    exists k. apply in_or_app. auto.
+Qed.
+
+Lemma poll_classify : forall c s, Inv c s -> live s ->
+  sq s = [] -> cq_open s = true -> tokens_ok c s ->
+  poll_outcome (fst (poll c s)) (snd (poll c s)).
+Proof.
+  intros c s I0 L0.
+  apply (poll_ind c (fun _ s s2 o => live s -> sq s = [] -> cq_open s = true -> tokens_ok c s ->
+                                     poll_outcome s2 o)); auto using live_unfinished.
+  - intros top s0 s1 o I1 F1 Hp L1 Esq Eo Tk.
+    assert (HS : SStep c s0 s1 o NRet).
+    { apply pstep_cases in Hp. destruct Hp as [[-> H]|[-> (sa & oa & b & HS & H)]]; auto.
+      inv HS; try congruence.
+      destruct H as [(X & _)|(_ & o1 & H1 & ->)]; [discriminate|]. exact H1. }
+    pose proof I1 as [Len St _]. unfold live in L1. unfold poll_outcome.
+    inv HS; sel;
+      try (match goal with X : ws s0 = _ |- _ => rewrite X in L1, St; cbn [stat_ok] in St end);
+      try contradiction.
+    + (* U pend *) right; left. split; auto. eapply check_ready_pend; eauto.
+    + (* R idx *) exfalso. destruct St as [Sk _].
+      match goal with X : nth_error _ _ = None |- _ => apply nth_error_None in X end. lia.
+    + (* R pend *) right; right; left. exists k. split; auto. now left.
+    + (* R err *) right; right; right. split; auto. split; [right; now left|]. exists k. now left.
+    + (* A idle *) left. split; auto.
+    + (* A closed *) congruence.
+    + (* A idx *) exfalso. unfold tokens_ok in Tk.
+      match goal with X : cq s0 = _ |- _ => rewrite X in Tk end. inv Tk. cbn [fst] in *.
+      match goal with X : check_ready _ _ = _ |- _ => apply check_ready_length in X end.
+      match goal with X : nth_error _ _ = None |- _ => apply nth_error_None in X end. lia.
+    + (* finished *) congruence.
+  - intros top s0 s1 o1 nx s2 o2 I1 L1 Hsq1 HS Hn I2 L2 Hsq2 IH _ Esq Eo Tk.
+    apply poll_outcome_app. apply IH; auto.
+    + congruence.
+    + erewrite sstep_open; eauto.
+    + unfold tokens_ok in *. destruct nx; [congruence| |].
+      * apply sstep_top_cq in HS. destruct HS as [-> _]. exact Tk.
+      * apply sstep_loop_inv in HS.
+        destruct HS as (sv & o0 & tok & cid & rest0 & v & _ & _ & Eq & _ & -> & _). sel.
+        rewrite Eq in Tk. now inv Tk.
+Qed.
+
+(* the same, with the fate of every queued connection: called in order, or still queued *)
+Theorem poll_serves : forall c s, Inv c s -> live s ->
+  sq s = [] -> cq_open s = true -> tokens_ok c s ->
+  let s2 := fst (poll c s) in let o := snd (poll c s) in
+  poll_outcome s2 o /\ (live s2 -> cq s = calls_of o ++ cq s2)
+  /\ (ws s2 = WAvailable -> calls_of o = cq s).
+Proof.
+  intros c s I0 L0 Esq Eo Tk s2 o.
+  pose proof (poll_classify c s I0 L0 Esq Eo Tk) as PO.
+  destruct (poll_cq c s I0 (live_unfinished s L0)) as (rest & E & HL).
+  fold s2 in PO, HL. fold o in PO, E.
+  assert (LQ : live s2 -> cq s = calls_of o ++ cq s2). { intros L2. now rewrite (HL L2). }
+  split; auto. split; auto.
+  intros Ew. assert (L2 : live s2). { unfold live. now rewrite Ew. }
+  destruct PO as [[_ Eq]|[[X _]|[[k [X _]]|[X _]]]]; try congruence.
+  rewrite (LQ L2), Eq. now rewrite app_nil_r.
+Qed.
+
+(* scripts that only answer Ok: no Pending / Err answer can appear *)
+Definition benign (l : list svc) : Prop :=
+  Forall (fun v => Forall (fun a => a = ROk) (s_ready v) /\ Forall (fun a => a = COk) (s_create v)) l.
+
+Definition good_ev (e : obs) : Prop :=
+  match e with
+  | PollReady _ r => r = ROk
+  | PollCreate _ r => r = COk
+  | _ => True
+  end.
+
+Lemma check_ready_benign : forall l k sv r o,
+  benign l -> check_ready k l = (sv, r, o) -> benign sv /\ Forall good_ev o.
+Proof.
+  induction l as [|v t IH]; intros k sv r o B H.
+  - inv H. split; constructor.
+  - inversion B as [|? ? HB1 HB2]; subst. cbn [check_ready] in H. destruct (polled (s_status v)).
+    + destruct (next_ready v) as [a v'] eqn:En.
+      assert (A : a = ROk /\ Forall (fun a => a = ROk) (s_ready v') /\ s_create v' = s_create v).
+      { unfold next_ready in En. destruct HB1 as [R _]. destruct (s_ready v) eqn:Er.
+        - inv En. rewrite Er. auto.
+        - inv En. inv R. cbn. auto. }
+      destruct A as (-> & A1 & A2).
+      destruct (check_ready (S k) t) as [[t' r'] o'] eqn:Ec. inv H.
+      apply IH in Ec; auto. destruct Ec as [B' G]. split.
+      * constructor; auto. cbn [s_ready s_create with_status]. rewrite A2. tauto.
+      * constructor; auto. reflexivity.
+    + destruct (check_ready (S k) t) as [[t' r'] o'] eqn:Ec. inv H.
+      apply IH in Ec; auto. destruct Ec as [B' G]. split; auto. constructor; auto.
+Qed.
+
+Lemma next_create_benign : forall v a v',
+  Forall (fun a => a = COk) (s_create v) -> next_create v = (a, v') ->
+  a = COk /\ Forall (fun a => a = COk) (s_create v') /\ s_ready v' = s_ready v.
+Proof.
+  unfold next_create. intros v a v' B H. destruct (s_create v) eqn:Ec.
+  - inv H. rewrite Ec. auto.
+  - inv H. inv B. cbn. auto.
+Qed.
+
+Lemma benign_nth : forall l k v, benign l -> nth_error l k = Some v ->
+  Forall (fun a => a = ROk) (s_ready v) /\ Forall (fun a => a = COk) (s_create v).
+Proof.
+  intros l k v B H. apply nth_error_In in H. unfold benign in B. rewrite Forall_forall in B. auto.
+Qed.
+
+Lemma drop_obs_good : forall s, Forall good_ev (drop_obs s).
+Proof.
+  intros s. unfold drop_obs. repeat apply Forall_app2.
+  - apply Forall_forall. intros e He. apply in_map_iff in He. destruct He as (x & <- & _). exact I.
+  - apply Forall_forall. intros e He. apply in_map_iff in He. destruct He as (x & <- & _). exact I.
+  - destruct (ws s); repeat constructor.
+Qed.
+
+Lemma benign_upd_const : forall l k w,
+  benign l ->
+  Forall (fun a => a = ROk) (s_ready w) /\ Forall (fun a => a = COk) (s_create w) ->
+  benign (upd k (fun _ => w) l).
+Proof.
+  unfold benign. induction l as [|x t IH]; destruct k; cbn [upd]; intros w B Hw; auto.
+  - inv B. constructor; auto.
+  - inv B. constructor; auto.
+Qed.
+
+Lemma sstep_benign : forall c s s1 o nx,
+  SStep c s s1 o nx -> live s -> benign (svcs s) -> Forall good_ev o /\ benign (svcs s1).
+Proof.
+  intros c s s1 o nx H L B. unfold live in L.
+  inv H; sel;
+    try (match goal with X : check_ready _ _ = _ |- _ =>
+           destruct (check_ready_benign _ _ _ _ _ B X) as [B' G] end);
+    try (match goal with X : nth_error _ _ = Some _, Y : next_create _ = _ |- _ =>
+           destruct (benign_nth _ _ _ B X) as [BR BC];
+           destruct (next_create_benign _ _ _ BC Y) as (Ea & BC' & ER) end);
+    try discriminate.
+  - auto.
+  - auto.
+  - split; [apply Forall_app2; auto; repeat constructor|].
+    apply Forall_upd_id; auto.
+  - split; auto. repeat constructor.
+  - split; [repeat constructor|]. apply benign_upd_const; auto.
+    cbn [s_ready s_create with_status]. rewrite ER. auto.
+  - match goal with X : ws s = WShutdown _ _ _ |- _ => rewrite X in L end. contradiction.
+  - auto.
+  - split; auto. apply Forall_app2; auto. constructor; [exact I|apply drop_obs_good].
+  - split; auto. apply Forall_app2; auto. repeat constructor.
+  - split; auto. apply Forall_app2; auto. repeat constructor.
+  - auto.
+  - split; [apply Forall_app2; auto; repeat constructor|].
+    apply Forall_upd_id; auto.
+  - split; auto.
+Qed.
+
+Lemma poll_benign : forall c s, Inv c s -> live s -> sq s = [] -> benign (svcs s) ->
+  Forall good_ev (snd (poll c s)).
+Proof.
+  intros c s I0 L0.
+  apply (poll_ind c (fun _ s _ o => live s -> sq s = [] -> benign (svcs s) -> Forall good_ev o));
+    auto using live_unfinished.
+  - intros top s0 s1 o I1 F1 Hp L1 Esq B.
+    assert (HS : SStep c s0 s1 o NRet).
+    { apply pstep_cases in Hp. destruct Hp as [[-> H]|[-> (sa & oa & b & HS & H)]]; auto.
+      inv HS; try congruence.
+      destruct H as [(X & _)|(_ & o1 & H1 & ->)]; [discriminate|]. exact H1. }
+    eapply sstep_benign; eauto.
+  - intros top s0 s1 o1 nx s2 o2 I1 L1 Hsq1 HS Hn I2 L2 Hsq2 IH _ Esq B.
+    destruct (sstep_benign _ _ _ _ _ HS L1 B) as [G1 B1].
+    apply Forall_app2; auto. apply IH; auto. congruence.
+Qed.
+
+(* C07_served: with every service ready from now on, one poll calls every queued connection,
+   in order, and leaves the worker Available with an empty queue *)
+Theorem poll_serves_all : forall c s, Inv c s -> live s ->
+  sq s = [] -> cq_open s = true -> tokens_ok c s -> benign (svcs s) ->
+  ws (fst (poll c s)) = WAvailable /\ cq (fst (poll c s)) = []
+  /\ calls_of (snd (poll c s)) = cq s.
+Proof.
+  intros c s I0 L0 Esq Eo Tk B.
+  destruct (poll_serves c s I0 L0 Esq Eo Tk) as (PO & _ & HA).
+  pose proof (poll_benign c s I0 L0 Esq B) as G. rewrite Forall_forall in G.
+  destruct PO as [[Ew Eq]|[[_ [k Hk]]|[[k [_ Hk]]|[_ [_ [k Hk]]]]]].
+  - auto.
+  - apply G in Hk. discriminate Hk.
+  - apply G in Hk. discriminate Hk.
+  - apply G in Hk. discriminate Hk.
+Qed.
